@@ -3,6 +3,7 @@ Driver for C10.  One request per line, `k=v` fields separated by single spaces:
   op=ctor  T=<xsd type> V=<10|11|none> S=<code points, comma separated, `_` = empty>
   op=valid T=<xsd type> S=<…>
   op=canon T=<integer type|decimal|boolean> (I=<int> | S=<lexical form> | B=<0|1>)
+  op=greg K=<time|gDay|gMonth|gMonthDay> S=<cps>   op=lang S=<cps>
   op=tz S=<timezone text>   op=tzcanon M=<minutes>   op=dur K=<duration|yearMonthDuration|dayTimeDuration> S=<cps>
   op=hexenc|b64enc Y=<octets, comma separated, `_` = empty>
   op=hex2b64|b642hex S=<stored value>
@@ -19,6 +20,7 @@ import EPV.Proto
 import EPV.Model.Lexical
 import EPV.Spec.XSDLexical
 import EPV.Lemmas.LexicalRepr
+import EPV.Lemmas.LexicalGreg
 open EPV.Proto EPV
 
 def parseCPs (s : String) : Option (List Char) :=
@@ -316,6 +318,29 @@ def answer (line : String) : String :=
           if !kindOk then "ERR:V"
           else if v.scale ≤ 6 then s!"ok:{mo}:{v.num * 10 ^ (6 - v.scale)}"
           else s!"ok:{mo}:~"          -- more than microseconds: the implementation rounds (quantize)
+        | none => "ERR:V"
+      out m m sp ""
+    | none => "bad-string"
+  else if op == "lang" then
+    match parseCPs (field fs "S") with
+    | some s =>
+      let m := match Lex.langCtor s with | some v => "ok:" ++ showCPs v | none => "ERR:V"
+      let c := XSD.wsCollapse s
+      let sp := if XSD.languageLex c then "ok:" ++ showCPs c else "ERR:V"
+      out m m sp ""
+    | none => "bad-string"
+  else if op == "greg" then
+    match parseCPs (field fs "S") with
+    | some s =>
+      let kname := field fs "K"
+      let k : Lex.GKind := if kname == "gDay" then .gDay else if kname == "gMonth" then .gMonth
+        else if kname == "gMonthDay" then .gMonthDay else .time
+      let showV (v : Lex.DTVal) : String :=
+        s!"ok:{v.month}:{v.day}:{v.hour}:{v.minute}:{v.second}:{v.micro}:" ++
+          (match v.tz with | some z => toString z | none => "none")
+      let m := match Lex.gCtor k s with | some v => showV v | none => "ERR:V"
+      let sp := match LexLemmas.specOf k (XSD.wsCollapse s) with
+        | some g => showV (LexLemmas.toDT g)
         | none => "ERR:V"
       out m m sp ""
     | none => "bad-string"
